@@ -133,6 +133,9 @@ pub enum POp {
     Clock { ms: u64 },
     /// run the pool's expiry now
     Expire,
+    /// another miner extends the tip: a block proposing scenario tx t and nothing else, then, once the
+    /// window opens, a block committing t and nothing else (only if that is legal on the chain)
+    Foreign { t: usize, seed: u64 },
 }
 
 #[derive(Clone, Debug, Serialize, Deserialize)]
@@ -208,8 +211,10 @@ pub fn generate(seed: u64, prop: &str) -> PoolScenario {
         txs.push(TxSpec { inputs, outputs, fee, dep, salt: r.below(1 << 30), hdep });
     }
     // planted shape: an output of an early transaction x is referenced as cell dep by p and spent by c
+    let mut planted_shape: Option<(usize, usize, usize)> = None;
     if ntx >= 4 && r.chance(1, 2) {
         let x = r.idx((ntx / 3).max(1));
+        planted_shape = Some((x, txs.len(), txs.len() + 1));
         let g1 = InRef::G(r.idx(g));
         txs.push(TxSpec { inputs: vec![g1], outputs: 1, fee: r.range(600, 3_000), dep: Some(InRef::T(x, 0)), salt: r.below(1 << 30), hdep: None });
         txs.push(TxSpec { inputs: vec![InRef::T(x, 0)], outputs: r.urange(1, 2), fee: r.range(600, 3_000), dep: None, salt: r.below(1 << 30), hdep: None });
@@ -240,8 +245,20 @@ pub fn generate(seed: u64, prop: &str) -> PoolScenario {
             3 => ops.push(POp::Poll { k: r.idx(8) }),
             4 => ops.push(POp::Quiesce),
             5 => ops.push(POp::Mine),
-            6 => ops.push(POp::Fork { back: r.range(1, 4), len: r.range(1, 5), seed: r.below(1 << 40) }),
-            7 => ops.push(POp::Remove { t: r.idx(ntx) }),
+            6 => {
+                if r.chance(1, 4) {
+                    ops.push(POp::Fork { back: r.range(1, 30), len: 0, seed: r.below(1 << 40) });
+                } else {
+                    ops.push(POp::Fork { back: r.range(1, 4), len: r.range(1, 5), seed: r.below(1 << 40) });
+                }
+            }
+            7 => {
+                if r.chance(1, 3) {
+                    ops.push(POp::Foreign { t: r.idx(ntx), seed: r.below(1 << 40) });
+                } else {
+                    ops.push(POp::Remove { t: r.idx(ntx) });
+                }
+            }
             8 => ops.push(POp::Clock { ms: *r.pick(&[1_000u64, 60_000, 3_600_000, 13 * 3_600_000]) }),
             _ => ops.push(POp::Expire),
         }
@@ -275,6 +292,28 @@ pub fn generate(seed: u64, prop: &str) -> PoolScenario {
         }
         sk.push(POp::Quiesce);
         sk.extend(ops.drain(..).take(30));
+        ops = sk;
+    }
+    if let (Some((x, p, c)), true) = (planted_shape, (prop == "C11" || prop == "C12" || prop == "C13") && r.chance(1, 3)) {
+        // "foreign miner" skeleton: x is committed by the node's own templates; p (cell dep on x:0)
+        // and c (spends x:0) wait in the pool; another miner's blocks commit one of them alone
+        let mut sk = Vec::new();
+        sk.push(POp::Submit { t: x, remote: false });
+        sk.push(POp::Quiesce);
+        for _ in 0..(cfg.w_close + 2 + r.range(0, 2)) {
+            sk.push(POp::Mine);
+            sk.push(POp::Quiesce);
+        }
+        sk.push(POp::Submit { t: p, remote: r.chance(1, 3) });
+        sk.push(POp::Submit { t: c, remote: r.chance(1, 3) });
+        sk.push(POp::Quiesce);
+        sk.push(POp::Foreign { t: if r.chance(3, 4) { c } else { p }, seed: r.below(1 << 40) });
+        if r.chance(1, 2) {
+            sk.push(POp::Poll { k: r.idx(8) });
+            sk.push(POp::Submit { t: r.idx(ntx), remote: false });
+        }
+        sk.push(POp::Quiesce);
+        sk.extend(ops.drain(..).take(40));
         ops = sk;
     }
     if prop == "C13" && r.chance(1, 3) {
@@ -985,6 +1024,10 @@ impl PoolExec {
                 self.now += ms;
                 self.res.faults.inc("clock_advance");
             }
+            POp::Foreign { t, seed } => {
+                self.il.write_u64(11);
+                self.foreign(*t, *seed);
+            }
             POp::Expire => {
                 self.il.write_u64(10);
                 // the service runs the expiry pass only inside a reorg notification, together with
@@ -1083,17 +1126,62 @@ impl PoolExec {
         self.check_dump("mine");
     }
 
+    /// blocks of another miner on top of the tip that propose and then commit one pool transaction
+    fn foreign(&mut self, t: usize, seed: u64) {
+        let Some(tx) = self.tx(t % self.sc.txs.len().max(1)) else { return };
+        if self.w.st(self.tip_idx).txs.contains_key(&tx.hash()) {
+            return;
+        }
+        let name = format!("pt{}", t % self.sc.txs.len().max(1));
+        if !self.w.planted.contains_key(&name) {
+            let Some(idx) = self.w.txs.iter().position(|m| m.tx.hash() == tx.hash()) else { return };
+            self.w.planted.insert(name.clone(), idx);
+        }
+        let wc = self.w.cfg.w_close;
+        let mut parent = self.tip_idx;
+        for j in 0..=wc {
+            let plant: Vec<String> = if j == 0 { vec![format!("propose:{name}")] } else if j == wc { vec![format!("commit:{name}")] } else { vec![] };
+            let recipe = crate::scen::plain_recipe((seed << 8) ^ j ^ ((self.w.blocks.len() as u64) << 44), &plant);
+            let b = self.w.build_child(parent, &recipe);
+            let v = self.w.blocks[b].view.clone();
+            self.now = self.now.max(v.timestamp());
+            self.ft.set_faketime(self.now);
+            if let Some(Err(e)) = self.deliver(&v) {
+                self.res.harness_error = Some(format!("model-built foreign block rejected: {e}"));
+                return;
+            }
+            if j == wc && v.transactions().len() > 1 {
+                self.res.probes.inc("foreign_block_commits_pool_tx");
+                self.res.nontrivial = true;
+            }
+            parent = b;
+        }
+        self.res.faults.inc("foreign_miner_blocks");
+        self.ev(&format!("foreign t={t} -> tip #{}", self.tip_idx));
+    }
+
     /// a model-built competing branch that overtakes the tip
     fn fork(&mut self, back: u64, len: u64, seed: u64) {
         let chain = self.w.st(self.tip_idx).chain.clone();
         let tipn = chain.len() as u64 - 1;
-        let base_n = tipn.saturating_sub(back);
+        // len == 0: a fast-paced branch that leaves the main chain inside the genesis epoch, so that
+        // after the epoch boundary its blocks carry more work each than the main chain's; it is
+        // extended only until it outweighs the tip: the reorganisation may go to a SHORTER chain
+        let heavy = len == 0;
+        let base_n = if heavy { tipn.saturating_sub(back).min(self.w.cfg.genesis_epoch_len.saturating_sub(2)) } else { tipn.saturating_sub(back) };
+        let tip_td = self.w.st(self.tip_idx).total_difficulty.clone();
         let mut parent = chain[base_n as usize];
-        let need = (tipn - base_n) + len;
+        let need = if heavy { 60 } else { (tipn - base_n) + len };
         let mut r = Rng::new(seed);
         for j in 0..need {
+            if heavy && self.w.st(parent).total_difficulty > tip_td {
+                if self.w.blocks[parent].number < tipn {
+                    self.res.probes.inc("fork_to_shorter_heavier_branch");
+                }
+                break;
+            }
             let recipe = Recipe {
-                ts_delta: r.range(1_000, 9_000),
+                ts_delta: if heavy { r.range(1, 20) } else { r.range(1_000, 9_000) },
                 miner: 3,
                 new_txs: 0,
                 propose: r.urange(0, 4),
@@ -1111,7 +1199,14 @@ impl PoolExec {
             self.ft.set_faketime(self.now);
             let verdict = self.deliver(&v);
             if let Some(Err(e)) = verdict {
-                self.res.harness_error = Some(format!("model-built fork block rejected: {e}"));
+                // C04: a block of transactions that meet every rule in their context was refused
+                // (e.g. a context reached through a reorganisation)
+                if self.sc.prop == "C04" {
+                    let kind = e.split('(').take(4).collect::<Vec<_>>().join("(");
+                    self.viol("C04", &format!("block_rejects_valid_tx:model_branch:{}", kind.chars().filter(|c| c.is_ascii_alphanumeric() || *c == '(').collect::<String>()), format!("a competing branch built by the model (every transaction valid in its context) was refused: {e}"));
+                } else {
+                    self.res.harness_error = Some(format!("model-built fork block rejected: {e}"));
+                }
                 return;
             }
             parent = b;
@@ -1722,7 +1817,14 @@ impl PoolExec {
         }
         // the chain itself stays consistent
         if let Err((class, detail)) = compare_state(&self.w, &*snap, Some(&*snap)) {
-            self.res.harness_error = Some(format!("chain state diverged from model in pool mode: {class} {detail}"));
+            if self.sc.prop == "C04" && (class.starts_with("cell") || class.starts_with("txinfo") || class.starts_with("index")) {
+                // the context transactions are judged in (live cells with their creating block, epoch
+                // and index, transaction locations) is not the one the chain's history implies:
+                // verdicts that read it depend on how the node arrived here
+                self.viol("C04", &format!("chain_context_differs_from_replay:{class}"), detail);
+            } else {
+                self.res.harness_error = Some(format!("chain state diverged from model in pool mode: {class} {detail}"));
+            }
         }
         let _ = bigmath::big(0);
     }
